@@ -49,7 +49,8 @@ add("C02",
                "forget of every non-empty subset, prune with 10/25 option vectors (incl. early index deletion), forget+prune at once through `ignore_snaps`, clock ticks of 1 h and 24 h, duplicated index file, reversed listing} "
                "from three initial repository states (empty; two snapshots one forgotten; plus an unreferenced pack). Every transition runs the real command on fresh handles; "
                "in every distinct canonical state all live snapshots are read back through the API and through an independent decoder and compared with the source model, "
-               "marked packs must exist, and (thorough) check --read-data must be clean.",
+               "marked packs must exist, and (thorough) check --read-data must be clean. "
+               "The search is repeated with prune's small-index threshold (10 000 blobs) lowered to 1 through a hook, so that index files are rewritten only when they change, as in a repository of realistic size.",
     level_note="Depth and alphabet are bounded as stated; the clock is the verif hook offset; canonical states drop random ids, so two stores that differ only in ids are merged. "
                "Snapshots written by a stale handle are exempt until the next prune (that is C10's subject).",
     shards={"quick": 16, "thorough": 16},
